@@ -99,7 +99,7 @@ def body(c):
     g = vlib.run_tlc("gql/Gen_Sdl.tla", cfg, workers=8, timeout=1800, keep_lines=50, xmx="8g")
     c.add_tlc("G string builder, <= %d atoms, all slots" % natoms, g)
     cfg2 = c.path("GenTs.cfg")
-    universes = ["Chain", "Args", "ImplObject3"] if c.quick else ["Chain", "Args", "ImplObject6", "ImplInterface3", "Roots", "Refs"]
+    universes = ["Chain", "Args", "ImplObject3"] if c.quick else ["Chain", "Args", "ImplObject6", "ImplInterface3", "Roots"]
     with open(cfg2, "w") as f:
         f.write("CONSTANT Universes = {%s}\nINIT Init\nNEXT Next\nINVARIANT Emit\n" % ", ".join('"%s"' % u for u in universes))
     g2 = vlib.run_tlc("gql/Gen_SchemaCheck.tla", cfg2, workers=8, timeout=1800, keep_lines=50, xmx="8g", metadir=c.path("tlc-G2"))
@@ -128,13 +128,13 @@ def body(c):
     for o in options:
         cases.append({"src": "options", "slot": "", "flavour": "dynamic", "opts": o, "ts": norm17(json.loads(json.dumps(base[0])))})
     for u, s in sorted(set((t[1], vlib.canon(norm17(json.loads(t[2])))) for t in g2.tagged("REPLAY"))):
-        for o in rng.sample(options, 1 if c.quick else 2):
+        for o in rng.sample(options, 1):
             cases.append({"src": u, "slot": "", "flavour": "dynamic", "opts": o, "ts": json.loads(s)})
     for name in STATIC:
         for o in (rng.sample(options, 24) if c.quick else options):
             cases.append({"src": "static", "slot": "", "flavour": "static:" + name, "opts": o, "ts": {}})
     if not c.quick:
-        for _ in range(20000):
+        for _ in range(8000):
             ts = norm17(random_ts(rng))
             cases.append({"src": "random", "slot": "", "flavour": "dynamic", "opts": rng.choice(options), "ts": decorate(rng, ts)})
     for i, case in enumerate(cases):
@@ -190,11 +190,11 @@ def body(c):
     c.cov["traces_validated_against_impl"] = len(obs)
     c.cov["exhaustive"] = True
     c.cov["verdict_counts"] = counts
-    c.cov["rule"] = ("G: every text of <= %d atoms over {\", \"\"\", \\, LF, CR, SP, a, U+0001, U+001B, U+1F600} (TLC BFS) in each of 12 string slots of a base "
+    c.cov["rule"] = ("G: every text of <= %d atoms (texts of 3 atoms in 5 of the 12 slots) over {\", \"\"\", \\, LF, CR, SP, a, U+0001, U+001B, U+1F600} (TLC BFS) in each of 12 string slots of a base "
                      "type system (%d cases, descriptions under prefer_single_line x {tab, 2 spaces}); the base type system under all %d option combinations; "
                      "valid type systems of the C33 builder machine (%s) under seeded option combinations; %d derive-built schemas under all option "
                      "combinations%s; non-trivial = a valid type system that built and was exported; distinct by (type system, options, flavour)"
-                     % (natoms, n_string, len(options), ",".join(universes), len(STATIC), "" if c.quick else "; 20000 seeded random decorated type systems"))
+                     % (natoms, n_string, len(options), ",".join(universes), len(STATIC), "" if c.quick else "; 8000 seeded random decorated type systems"))
     for o in [x for x in obs if verdicts.get(x["id"], [""])[0] == "ok"][:1] + [x for x in obs if verdicts.get(x["id"], [""])[0] == "known"][:2]:
         c.sample({"slot": o["slot"], "opts": o["opts"], "sdl": o["sdl"][:400], "parse_error": o["parse_error"], "verdict": verdicts[o["id"]][0],
                   "deviations": verdicts[o["id"]][1]})
